@@ -150,6 +150,15 @@ def curated_items():
     out.append(D.wf("items_retry", {
         "t1": T(items=2, retry={"count": 1}, next=[dict(when="succeeded", do=["t2"])]),
         "t2": T()}, fates={"t1": A, "t2": ["s"]}))
+    # a second branch reaches a running with-items join: 1 target and publishes; the target's own
+    # transitions read that variable when it completes (they must see what the execution started with)
+    out.append(D.wf("items_join1_late_pub", {
+        "t1": T(next=[dict(when="succeeded", do=["t3"])]),
+        "t2": T(next=[dict(when="succeeded", pub=[["w", "c:5"]], do=["t3"])]),
+        "t3": T(join=1, items=2, conc=1, next=[dict(when="failed", pub=[["y", "ctx:w"]], do=["t4"]),
+                                               dict(when="succeeded", pub=[["y", "ctx:w"]], do=["t4"])]),
+        "t4": T()}, vars=[["w", 0], ["y", 0]], output=[["oy", "ctx:y"]],
+        fates={"t1": ["s"], "t2": ["s"], "t3": A, "t4": ["s"]}))
     return out
 
 
@@ -322,6 +331,13 @@ def curated_ctx():
         "t2": T(next=[dict(pub=[["a", "c:2"]], do=["t4"])]),
         "t3": T(next=[dict(do=["t4"])]),
         "t4": T(join=-1)}, vars=[["a", 0]], output=[["oa", "ctx:a"]]))
+    # one inbound branch of a join has published nothing at all (its context is the initial one only),
+    # the other one overrides a variable that has a default
+    out.append(D.wf("join_root_nopub", {
+        "t1": T(next=[dict(when="succeeded", pub=[["a", "c:1"]], do=["t3"])]),
+        "t2": T(next=[dict(when="succeeded", do=["t3"])]),
+        "t3": T(join=-1, next=[dict(pub=[["b", "ctx:a"]], do=["t4"])]),
+        "t4": T()}, vars=[["a", 0], ["b", 0]], output=[["oa", "ctx:a"], ["ob", "ctx:b"]]))
     out.append(D.wf("independent_join", {
         "t1": T(next=[dict(do=["t2", "t3"])]),
         "t2": T(next=[dict(pub=[["a", "res"]], do=["t4"])]),
@@ -375,6 +391,31 @@ def curated_ctx():
 
 FAULT_POSITIONS = ("vars", "action", "input", "items", "conc", "delay", "retry_when", "retry_count", "retry_delay",
                    "when", "publish", "output")
+
+
+def curated_delay():
+    """Shapes with delayed tasks, for providers that report `delayed` before `running` (env delayed)."""
+    A = ["s", "f"]
+    out = []
+    out.append(D.wf("delay_branch", {
+        "t1": T(delay=3, next=[dict(when="succeeded", pub=[["x", "c:1"]], do=["t3"])]),
+        "t2": T(),
+        "t3": T(next=[dict(do=["t4"])]),
+        "t4": T()}, vars=[["x", 0]], output=[["ox", "ctx:x"]], fates={"t1": A, "t2": A}))
+    out.append(D.wf("delay_join", {
+        "t1": T(delay=2, next=[dict(when="succeeded", do=["t3"])]),
+        "t2": T(next=[dict(when="succeeded", do=["t3"])]),
+        "t3": T(join=-1)}, fates={"t1": A, "t2": A}))
+    out.append(D.wf("delay_second", {
+        "t1": T(next=[dict(do=["t2", "t3"])]),
+        "t2": T(delay=2, next=[dict(do=["t4"])]),
+        "t3": T(),
+        "t4": T()}, fates={"t2": A, "t3": A}))
+    out.append(D.wf("delay_items", {
+        "t1": T(items=2, conc=1, delay=2, next=[dict(do=["t3"])]),
+        "t2": T(),
+        "t3": T()}, fates={"t1": A, "t2": A}))
+    return out
 
 
 def multi_ref_family():
